@@ -111,11 +111,10 @@ def Problem.write (p : Problem) (id : NodeId) (v : Option Val) : Problem :=
 
 /-! ## primitive state changes a setter performs -/
 inductive Action where
-  /-- `node.value = v` on the node the attribute holds -/
+  /-- `node.value = v` on the node the attribute holds.  For the importance of a particle this is
+      importance.py:Importance.__setitem__ after its checks: make the tree if the particle has none, give the
+      particle its own copy if the tree is stored under another particle too, then write. -/
   | write (s : Slot) (v : Option Val)
-  /-- importance.py:Importance.__setitem__ after its checks: make the tree if the particle has none, give the
-      particle its own copy if the tree is stored under another particle too, then write -/
-  | setImp (i : Nat) (part : String) (v : Option Val)
   | setField (f : Field) (o : Obs)
 deriving Repr
 
@@ -123,35 +122,38 @@ deriving Repr
 def sharedImp (p : Problem) (i : Nat) (part : String) (id : NodeId) : Bool :=
   (p.impKeys i).any (fun b => b ≠ part && p.slot (.cellImp i b) == some id)
 
+/-- importance.py:Importance.__setitem__ (the part after the checks) -/
+def setImp (p : Problem) (i : Nat) (part : String) (v : Option Val) : Problem :=
+  let s := Slot.cellImp i part
+  match p.slot s with
+  | none =>
+    -- importance.py:Importance._generate_default_cell_tree(particle): a new tree with a new node 0.0
+    let id := p.next
+    let p1 : Problem := { p with
+      next := id + 1
+      heap := upd p.heap id { value := some (.num 0), negatable := false, isNeg := none }
+      slot := upd p.slot s (some id)
+      tree := upd p.tree s (some id)
+      impKeys := upd p.impKeys i (p.impKeys i ++ [part]) }
+    p1.write id v
+  | some id =>
+    if sharedImp p i part id then
+      -- copy.deepcopy(tree): a new node with the same content, stored under this particle only
+      let id' := p.next
+      let p1 : Problem := { p with
+        next := id' + 1
+        heap := upd p.heap id' (p.heap id)
+        slot := upd p.slot s (some id')
+        tree := upd p.tree s (some id') }
+      p1.write id' v
+    else p.write id v
+
 def execAction (p : Problem) : Action → Problem
+  | .write (.cellImp i part) v => setImp p i part v
   | .write s v => match p.slot s with
     | some id => p.write id v
     | none => p
   | .setField f o => { p with field := upd p.field f o }
-  | .setImp i part v =>
-    let s := Slot.cellImp i part
-    match p.slot s with
-    | none =>
-      -- importance.py:Importance._generate_default_cell_tree(particle): a new tree with a new node 0.0
-      let id := p.next
-      let p1 : Problem := { p with
-        next := id + 1
-        heap := upd p.heap id { value := some (.num 0), negatable := false, isNeg := none }
-        slot := upd p.slot s (some id)
-        tree := upd p.tree s (some id)
-        impKeys := upd p.impKeys i (p.impKeys i ++ [part]) }
-      p1.write id v
-    | some id =>
-      if sharedImp p i part id then
-        -- copy.deepcopy(tree): a new node with the same content, stored under this particle only
-        let id' := p.next
-        let p1 : Problem := { p with
-          next := id' + 1
-          heap := upd p.heap id' (p.heap id)
-          slot := upd p.slot s (some id')
-          tree := upd p.tree s (some id') }
-        p1.write id' v
-      else p.write id v
 
 def execActions (p : Problem) (as : List Action) : Problem := as.foldl execAction p
 
@@ -328,16 +330,14 @@ def plan (p : Problem) : Edit → Except ErrKind (List Action)
     if !(modeParts p).contains part then .error .particleNotInProblem else
     match pyNum v with
     | none => .error .typeError
-    | some q => if q < 0 then .error .valueError else .ok [.setImp i part (some (.num q))]
-  -- data_inputs/importance.py:Importance.all (setter): every particle of the mode, no unsharing, KeyError if missing
+    | some q => if q < 0 then .error .valueError else .ok [.write (.cellImp i part) (some (.num q))]
+  -- data_inputs/importance.py:Importance.all (setter): self[particle] = value for every particle of the mode
   | .importanceAll i v =>
     if i ≥ p.ncells then .error .indexError else
     match pyNum v with
     | none => .error .typeError
     | some q => if q < 0 then .error .valueError
-      else if (modeParts p).all (fun a => (p.impKeys i).contains a) then
-        .ok ((modeParts p).map (fun a => .write (.cellImp i a) (some (.num q))))
-      else .error .keyError
+      else .ok ((modeParts p).map (fun a => .write (.cellImp i a) (some (.num q))))
   -- data_inputs/volume.py:Volume.volume (setter), validator _ensure_positive
   | .volume i v => if i ≥ p.ncells then .error .indexError else setFloat (.cellVol i) true (some (0, false)) v
   -- data_inputs/volume.py:Volume.volume (deleter; utilities.py:make_prop_val_node deleter)
